@@ -6,9 +6,15 @@
    function that is not batchable, or un-marking one, or re-routing a marked method to
    another NumPy function makes C15_generated_tables_ok fail.
    First sentence ("= the value NumPy gives"): Backends/Ops.v `apply` is the exact reference; it is
-   tied to numpy and to both back-ends by the value correspondence of harness/c15.py, no theorem. *)
+   tied to numpy and to both back-ends by the value correspondence of harness/c15.py, no theorem.
+   What IS proved about it concerns the element types (Backends/Dtype.v): whenever several arrays meet,
+   the result's element type is NumPy's common type of ALL the arguments -- independent of their order,
+   wide enough for every argument -- and converting to it changes no value, so that on such data the
+   typed reference coincides with the exact one; a back-end that takes the type from its first
+   argument is observably different (truncates, wraps, collapses to 0/1, depends on the order). *)
 From Coq Require Import List NArith ZArith QArith Qcanon String Bool Permutation.
 From EKW Require Import Backends.Tensor Backends.Ops Backends.OpsProofs.
+From EKW Require Import Backends.Dtype Backends.DtypeProofs Backends.OpsCheck Backends.DtypeCheck.
 From EKWgen Require Import Batchable.
 Import ListNotations.
 Open Scope string_scope.
@@ -57,7 +63,82 @@ Proof.
   destruct (common_shape (x :: y :: r)); reflexivity.
 Qed.
 
+(* ---- element types: "the value NumPy gives" has NumPy's element type, whatever the order of the arguments ---- *)
+(* the common element type of the arguments of stack / concat / a multi-argument reduction / a binary
+   operation does not depend on the order in which they are passed (so never on "the first one") *)
+Theorem C15_common_dtype_order_independent : forall ds ds',
+  Permutation ds ds' -> promote_list ds = promote_list ds'.
+Proof. exact promote_list_perm. Qed.
+
+Theorem C15_result_dtype_order_independent : forall c ds ds',
+  Permutation ds ds' -> result_dtype c ds = result_dtype c ds'.
+Proof. intros c ds ds' H. apply result_dtype_perm; [exact H|reflexivity]. Qed.
+
+(* it holds the values of every argument: each argument's type widens to it without loss, the one
+   exception NumPy makes being 64-bit integers sent to float64 *)
+Theorem C15_common_dtype_holds_every_argument : forall ds D d,
+  promote_list ds = Some D -> In d ds -> widens d D = true \/ (is64int d = true /\ D = DF64).
+Proof.
+  intros ds D d HD Hd. pose proof (promote_list_upper ds D d HD Hd) as H. unfold converts in H.
+  apply orb_true_iff in H as [H|H]; [left; exact H|right].
+  apply andb_true_iff in H as [H1 H2]. split; [exact H1|]. destruct D; try discriminate. reflexivity.
+Qed.
+
+(* widening changes no value: every value of d is a value of D and the conversion is the identity on it *)
+Theorem C15_widening_preserves_values : forall d D q,
+  widens d D = true -> repr d q = true -> repr D q = true /\ cast D q = q.
+Proof. intros d D q HW HR. split; [eapply widens_repr|eapply widens_cast_id]; eassumption. Qed.
+
+(* hence, on arguments of any mixture of element types that widen to the common one, the typed
+   reference (convert, then operate) is the exact reference of Backends/Ops.v with the result type attached *)
+Theorem C15_typed_reference_is_exact : forall c ds D,
+  promote_list ds = Some D ->
+  Forall2 (fun d t => all_repr d t = true) ds (call_inputs c) ->
+  Forall (fun d => widens d D = true) ds ->
+  apply_t c ds = bind (apply c) (fun t => Ok (op_dtype c D, t)).
+Proof. exact apply_t_exact. Qed.
+
+(* the element type of the first argument is NOT it: there are calls on which a back-end that
+   preallocates with args[0].dtype returns other values and another type than the reference, and
+   its result type changes when the arguments are reordered *)
+Theorem C15_first_argument_dtype_refuted :
+  (exists c ds r r', apply_t c ds = Ok r /\ apply_first c ds = Ok r' /\ snd r <> snd r' /\ fst r <> fst r') /\
+  (exists ds ds', Permutation ds ds' /\ promote_list ds = promote_list ds' /\
+     option_map fst (match apply_first (CStack [t1 1; t1 2] 0%Z) ds with Ok x => Some x | Err _ => None end)
+     <> option_map fst (match apply_first (CStack [t1 2; t1 1] 0%Z) ds' with Ok x => Some x | Err _ => None end)).
+Proof.
+  split.
+  - destruct first_dtype_wraps as [H1 H2]. do 4 eexists. split; [exact H1|]. split; [exact H2|].
+    split; vm_compute; discriminate.
+  - destruct first_dtype_order_dependent as (ds & ds' & HP & HN). exists ds, ds'.
+    split; [exact HP|]. split; [apply promote_list_perm; exact HP|exact HN].
+Qed.
+
 (* ---- non-vacuity: concrete, non-trivial instances of every hypothesis ---- *)
+(* element types: the common type of a list is not the left fold of the pairwise one (so it is stated on
+   lists); a lossless mixture; values in and out of a type; a wrapped and a truncated conversion;
+   an instance of every hypothesis of C15_typed_reference_is_exact with a defined, typed result *)
+Example C15_nonvacuous_dtypes :
+  promote_list [DI16; DU16; DF32] = Some DF32 /\ promote (promote DI16 DU16) DF32 = DF64 /\
+  promote_list [DI8; DU64] = Some DF64 /\ lossless [DI8; DI32; DF64] = true /\ lossless [DI64; DF32] = false /\
+  widens DI16 DF32 = true /\ widens DI32 DF32 = false /\
+  repr DF32 (Q2Qc (5 # 2)) = true /\ repr DI8 (qint 300) = false /\ repr DF32 (qint 16777217) = false /\
+  cast DI8 (qint 300) = qint 44 /\ cast DI32 (Q2Qc (-7 # 2)) = qint (-3) /\ cast DBool (qint 5) = qint 1.
+Proof. vm_compute. repeat split; reflexivity. Qed.
+
+Example C15_nonvacuous_typed :
+  let c := CStack [t1 1; th 5 2] 0%Z in
+  promote_list [DI8; DF64] = Some DF64 /\
+  Forall2 (fun d t => all_repr d t = true) [DI8; DF64] (call_inputs c) /\
+  Forall (fun d => widens d DF64 = true) [DI8; DF64] /\
+  (exists t, apply_t c [DI8; DF64] = Ok (DF64, t) /\ shape t = [2%nat; 1%nat]) /\
+  typed_result_is (CReduce "sum" [t1 100; t1 100; t1 100] None) [DI8; DI8; DI8] DI64 [1%nat] [300%Z] = true /\
+  check_dtype_only (CBin "divide" (t1 1) (t1 2), [DI16; DF32], DF32) = true.
+Proof.
+  cbv zeta. split; [reflexivity|]. split; [repeat constructor|]. split; [repeat constructor|].
+  split; [eexists; split; vm_compute; reflexivity|]. split; vm_compute; reflexivity.
+Qed.
+
 Example C15_nonvacuous_marked :
   (exists meth, In meth (marked_of backend_facade)) /\
   resolve backend_facade xarray_table "concat" = Some MConcat /\
@@ -97,3 +178,9 @@ Print Assumptions C15_marked_are_batchable.
 Print Assumptions C15_mean_std_var_stack_not_batchable.
 Print Assumptions C15_reductions_any_partition.
 Print Assumptions C15_multi_is_stack_then_reduce.
+Print Assumptions C15_common_dtype_order_independent.
+Print Assumptions C15_result_dtype_order_independent.
+Print Assumptions C15_common_dtype_holds_every_argument.
+Print Assumptions C15_widening_preserves_values.
+Print Assumptions C15_typed_reference_is_exact.
+Print Assumptions C15_first_argument_dtype_refuted.
